@@ -303,7 +303,7 @@ func (dr *DialogueRunner) executeSetStatement(statement *tree.SetStatement) erro
 		case tree.AssignmentInPlaceOperator:
 			newStringValue = stringValue
 		case tree.AdditionInPlaceOperator:
-			newStringValue = (stringValue) + (*previousValue.String)
+			newStringValue = (*previousValue.String) + (stringValue)
 		default:
 			return fmt.Errorf("unsupported assignment operator for string variable encountered")
 		}
